@@ -199,6 +199,12 @@ class Ctx:
             args = tuple(_freeze(a) for a in args)
             kwargs = {k: _freeze(v) for k, v in kwargs.items()}
             self.evals["hostile:read-only-arguments"] += 1
+        elif freeze is not False and LAYOUT != "0" and (LAYOUT == "1" or getattr(self, "layout_case", False)):
+            # the same values in another memory layout (Fortran order, or a strided view into a larger buffer): a function of the values must not notice
+            self._layout_n = getattr(self, "_layout_n", 0) + 1
+            args = tuple(_relayout(a, self._layout_n) for a in args)
+            kwargs = {k: _relayout(v, self._layout_n) for k, v in kwargs.items()}
+            self.evals["hostile:memory-layout"] += 1
         watch = freeze is not False and not frozen and ARGWATCH
         hist = self.hist if history else None
         if watch or hist is not None:
@@ -292,6 +298,29 @@ def fresh_result(ctx, monitor, fn, args, kwargs=None, sig=None):
 
 
 FREEZE = os.environ.get("VMON_FREEZE", "")  # "1": every call, "0": never, default: the cases the runner selects (one in four)
+
+
+LAYOUT = os.environ.get("VMON_LAYOUT", "")  # "1": every call, "0": never, default: the cases the runner selects (one in four)
+
+
+def _relayout(obj, n=0):
+    """The same values in another memory layout: Fortran order for matrices, a stride-2 view for vectors and (every other time) matrices."""
+    if isinstance(obj, np.ndarray) and obj.dtype != object and obj.dtype.kind in "biufc" and obj.size > 1:
+        if obj.ndim == 2 and min(obj.shape) > 1 and n % 2 == 0:
+            return np.asfortranarray(obj)
+        if obj.ndim in (1, 2):
+            buf = np.zeros(tuple(2 * s_ for s_ in obj.shape), dtype=obj.dtype)
+            view = buf[::2] if obj.ndim == 1 else buf[::2, ::2]
+            view[...] = obj
+            return view
+        return obj
+    if isinstance(obj, list):
+        return [_relayout(v, n) for v in obj]
+    if isinstance(obj, tuple):
+        return tuple(_relayout(v, n) for v in obj)
+    if isinstance(obj, dict):
+        return {k: _relayout(v, n) for k, v in obj.items()}
+    return obj
 
 
 def _freeze(obj):
